@@ -31,12 +31,13 @@ const (
 
 // Val is a symbolic Go value: the SMT terms of its leaves, in layout order.
 type Val struct {
-	Typ   types.Type
-	L     []string
-	Ptr   *PtrInfo // interior / element pointer information (only for pointer-typed values)
-	Tuple []Val    // multi-value results
-	Clo   *Closure // function values known statically
-	Unsup string   // non-empty: value is a havoc produced by an unsupported construct (reason)
+	Typ    types.Type
+	L      []string
+	Ptr    *PtrInfo // interior / element pointer information (only for pointer-typed values)
+	Tuple  []Val    // multi-value results
+	Clo    *Closure // function values known statically
+	Unsup  string   // non-empty: value is a havoc produced by an unsupported construct (reason)
+	Regexp *string  // statically known pattern of a *regexp.Regexp value
 }
 
 // PtrInfo describes a pointer that does not point at a whole allocated cell.
